@@ -48,7 +48,7 @@ Fixpoint victim (ts : Z) (name : option bytes) (es : list entry) : option bytes 
   end.
 
 (* for len(c.entries) >= c.size { ... delete(oldest) }   None = the loop does not end
-   (no entry expires before now + duration: delete("") removes nothing) *)
+   (no entry expires before now + duration: deleting the empty name removes nothing) *)
 Fixpoint evict (fuel : nat) (size : nat) (now dur : Z) (es : list entry) : option (list entry) :=
   if Nat.ltb (length es) size then Some es
   else match fuel with
@@ -68,7 +68,7 @@ Definition insert_section (size : nat) (dur now : Z) (h a : bytes) (es : list en
   end.
 
 (* ---------- sequential semantics: one whole lookup with nothing in between ---------- *)
-(* result: addresses and the "cached" flag; None = resolver failed;
+(* result: addresses and the cached flag; None = resolver failed;
    the outer None = the eviction loop spins *)
 Definition seq_lookup (size : nat) (dur : Z) (t1 t3 : Z) (h : bytes) (answer : option bytes)
            (es : list entry) : option (list entry * option (bytes * bool)) :=
